@@ -16,6 +16,7 @@ import (
 	"regexp/syntax"
 	"sort"
 	"strings"
+	"sync"
 	"time"
 
 	"github.com/0xrawsec/sod"
@@ -74,14 +75,18 @@ type Exec struct {
 	stateOut string
 	failed   bool
 	lower    bool
+	mu       *sync.Mutex
+	sink     func(line string) // when set, trace lines go there instead of `out`
 }
 
 func NewExec(root string, out io.Writer, seed int64) *Exec {
-	return &Exec{root: root, out: bufio.NewWriter(out), kmap: map[int]string{}, handles: map[string]int{"": 0},
+	return &Exec{root: root, out: bufio.NewWriter(out), mu: &sync.Mutex{}, kmap: map[int]string{}, handles: map[string]int{"": 0},
 		srch: map[int]*sod.Search{}, ext: ".json", rng: rand.New(rand.NewSource(seed)), stats: map[string]int{}}
 }
 
 func (e *Exec) handle(uuid string) int {
+	e.mu.Lock()
+	defer e.mu.Unlock()
 	if h, ok := e.handles[uuid]; ok {
 		return h
 	}
@@ -90,7 +95,25 @@ func (e *Exec) handle(uuid string) int {
 	return h
 }
 
+func (e *Exec) setK(k int, u string, overwrite bool) {
+	e.mu.Lock()
+	defer e.mu.Unlock()
+	if _, ok := e.kmap[k]; ok && !overwrite {
+		return
+	}
+	e.kmap[k] = u
+}
+
+func (e *Exec) getK(k int) (string, bool) {
+	e.mu.Lock()
+	defer e.mu.Unlock()
+	u, ok := e.kmap[k]
+	return u, ok
+}
+
 func (e *Exec) uuidOfK(k int) string {
+	e.mu.Lock()
+	defer e.mu.Unlock()
 	if u, ok := e.kmap[k]; ok {
 		return u
 	}
@@ -173,6 +196,10 @@ func (e *Exec) objsToken(objs []sod.Object, sorted bool) string {
 }
 
 func (e *Exec) emit(call, result string) {
+	if e.sink != nil {
+		e.sink(call + " => " + result)
+		return
+	}
 	fmt.Fprintf(e.out, "%s => %s\n", call, result)
 	e.lines++
 	if shimEnabled && !strings.HasPrefix(call, "casemap") && !strings.HasPrefix(call, "open") {
@@ -420,7 +447,7 @@ func (e *Exec) Run(op Op) {
 		t := op.Spec.build()
 		had := false
 		if op.Spec.K > 0 {
-			if u, ok := e.kmap[op.Spec.K]; ok {
+			if u, ok := e.getK(op.Spec.K); ok {
 				t.Initialize(u)
 				had = true
 			}
@@ -431,7 +458,7 @@ func (e *Exec) Run(op Op) {
 			if !had && t.UUID() != "" {
 				nw = e.handle(t.UUID())
 				if op.Spec.K > 0 {
-					e.kmap[op.Spec.K] = t.UUID()
+					e.setK(op.Spec.K, t.UUID(), true)
 				}
 			}
 			return fmt.Sprintf("ins %s new=%d", tok, nw)
@@ -459,7 +486,7 @@ func (e *Exec) Run(op Op) {
 			t := sp.build()
 			h := false
 			if sp.K > 0 {
-				if u, ok := e.kmap[sp.K]; ok {
+				if u, ok := e.getK(sp.K); ok {
 					t.Initialize(u)
 					h = true
 				}
@@ -485,9 +512,7 @@ func (e *Exec) Run(op Op) {
 				if !had[i] && t.UUID() != "" {
 					nw = e.handle(t.UUID())
 					if op.Specs[i].K > 0 {
-						if _, ok := e.kmap[op.Specs[i].K]; !ok {
-							e.kmap[op.Specs[i].K] = t.UUID()
-						}
+						e.setK(op.Specs[i].K, t.UUID(), false)
 					}
 				}
 				news = append(news, fmt.Sprintf("%d", nw))
